@@ -302,7 +302,7 @@ class Sim:
             return "quiescent"
 
     # ------------------------------------------------------------------ stepping API
-    def run(self, fn, horizon=600.0, name="driver"):
+    def run(self, fn, horizon=600.0, name="driver", stop=lambda: False):
         """Run fn on a fresh simulated thread until it returns and the system is quiescent at the current time.
 
         The clock advances only while the driver has not returned, never beyond horizon.
@@ -317,7 +317,7 @@ class Sim:
         t.is_driver = True
         self.start_thread(t)
         limit = self.now + horizon
-        st = self.pump(may_advance=lambda: t.state != DONE, limit=limit)
+        st = self.pump(may_advance=lambda: t.state != DONE, limit=limit, stop=stop)
         if t.state == DONE:
             if t.error is not None:
                 box["error"] = t.error
